@@ -59,10 +59,37 @@ for _p in sorted(glob.glob(os.path.join(os.path.dirname(__file__), "conf_*.py"))
             if _co is not None:
                 PROPS[_pid].setdefault("impl_oracle", {})["client"] = _co
 
+# suites that further properties run besides their own (conf_*.py: ALSO / ALSO_ORACLES / ALSO_PROPS / ALSO_ASSUME)
+_ALSO_PROPS = {}
+for _p in sorted(glob.glob(os.path.join(os.path.dirname(__file__), "conf_*.py"))):
+    _m = importlib.import_module("checklib." + os.path.basename(_p)[:-3])
+    for _suite, _pids in getattr(_m, "ALSO", {}).items():
+        for _pid in _pids:
+            if _pid not in PROPS:
+                continue
+            if _suite not in PROPS[_pid]["suites"]:
+                PROPS[_pid]["suites"] = PROPS[_pid]["suites"] + [_suite]
+            _o = getattr(_m, "ALSO_ORACLES", {}).get(_suite)
+            if _o is not None:
+                PROPS[_pid]["impl_oracle"] = dict(PROPS[_pid].get("impl_oracle") or {})
+                PROPS[_pid]["impl_oracle"][_suite] = _o
+            _x = getattr(_m, "ALSO_PROPS", {}).get(_suite)
+            if _x:
+                _ALSO_PROPS.setdefault(_pid, []).append(_x)
+            _a = getattr(_m, "ALSO_ASSUME", {}).get(_suite)
+            if _a and _a not in PROPS[_pid].get("assumptions", []):
+                PROPS[_pid]["assumptions"] = list(PROPS[_pid].get("assumptions", [])) + [_a]
+
 # further files of coq/Props whose theorems belong to a property: the client halves written by the
 # client-side proofs, and the blocking-structure model for the termination / deadlock clauses
 _EXTRA = {"C14": ["C14_client"], "C18": ["C18_client"], "C20": ["C20_client"],
           "C10": ["Teardown"], "C17": ["Teardown"], "C12": ["Teardown"]}
+for _p in sorted(glob.glob(os.path.join(os.path.dirname(__file__), "conf_*.py"))):
+    _m = importlib.import_module("checklib." + os.path.basename(_p)[:-3])
+    for _pid, _xs in getattr(_m, "ALSO_PROPS_BY_PID", {}).items():
+        _ALSO_PROPS[_pid] = _ALSO_PROPS.get(_pid, []) + list(_xs)
+for _pid, _xs in _ALSO_PROPS.items():
+    _EXTRA[_pid] = _EXTRA.get(_pid, []) + _xs
 for _pid, _xs in _EXTRA.items():
     if _pid in PROPS:
         _have = [x for x in _xs if os.path.exists(os.path.join(os.path.dirname(os.path.dirname(__file__)), "coq", "Props", x + ".v"))]
